@@ -26,6 +26,13 @@ JSON_SCORE = {"2": ("baseScore", "temporalScore", "environmentalScore"),
 def check_wellformed(inp):
     ver, v = inp["ver"], inp["vector"]
     exp = scorecheck.as_floats(scorecheck.expected_scores(ver, v))
+    if inp.get("pred"):
+        # another object of the version, rated and serialised in every form just before: what this object reports is its own
+        p = scorecheck.lib_class(ver)(inp["pred"])
+        p.severities()
+        for sort_ in (False, True):
+            for minimal_ in (False, True):
+                p.as_json(sort=sort_, minimal=minimal_)
     o = scorecheck.lib_class(ver)(v)
     fails = []
     got = o.scores()
@@ -108,7 +115,11 @@ def work(shard, n, seed):
             k += 1
             if new or (k & 7) == 0:
                 seen |= triples
-                ok = part.check("wellformed", check_wellformed, {"ver": ver, "vector": v})
+                inp = {"ver": ver, "vector": v}
+                if k % 3 == 0:
+                    inp["pred"] = _rand_class(rng, ver)          # every third case follows another object's ratings and documents
+                    part.classes["after-another-object"] += 1
+                ok = part.check("wellformed", check_wellformed, inp)
                 part.evaluations += 1
                 part.classes["v%s" % ver] += 1
                 if new:
